@@ -74,7 +74,7 @@ def run(c):
     g = G.Gen(rng)
     gw = G.Gen(rng, wide=True)
     gn = G.Gen(rng, comments=False, rare=1)
-    for _ in range(2500 * scale):
+    for _ in range(1800 * scale):
         texts.append(("generated", g.file()))
     for _ in range(800 * scale):
         texts.append(("generated-wide", gw.file(n=rng.range(1, 2))))
@@ -108,7 +108,7 @@ def run(c):
             second.append(G.fmt_line(l.split(" ")[1], G.unhex(a.split(" ")[1])))
     second = sorted(set(second) - set(lines))
     if not c.thorough:
-        second = second[:4000]
+        second = second[:2500]
     res2 = c.tie("format-of-formatted", second, impl, model, nontrivial=lambda l, a: a.startswith("ok "))
     for l, a, _ in res2:
         cls = oracle(c, l, a)
@@ -117,6 +117,25 @@ def run(c):
             dep_one = "dep=true" in a or "one=true" in a
             if not dep_one:
                 c.oracle_fail(l, "text produced by the formatter is not a fixed point of the formatter", l)
+    # T3-style certificate: the hypotheses of the token-level round-trip theorems (TypeRef.wf / Field.wf / StructDef.wf …)
+    # are evaluated by the model on the file it parsed from every accepted text (the tie shows it is the file Go parsed)
+    from vlib.core import run_lines
+    wf_lines = sorted(set("syntaxtl2.wf " + l.split(" ")[2] for l, a, _ in res if a.startswith("ok ")))
+    wf_out = run_lines(model, wf_lines)
+    cert = {"evaluated": 0, "in_domain": 0, "outside_guard": 0, "outside_domain_under_guard": 0, "examples_outside": []}
+    for l, o in zip(wf_lines, wf_out):
+        cert["evaluated"] += 1
+        if o == "ok guard=true wf=true":
+            cert["in_domain"] += 1
+        elif o.startswith("ok guard=false"):
+            cert["outside_guard"] += 1
+        else:
+            cert["outside_domain_under_guard"] += 1
+            if len(cert["examples_outside"]) < 5:
+                cert["examples_outside"].append(G.unhex(l.split(" ")[1])[:120].decode("utf-8", "replace"))
+    c.extra["certificates"] = cert
+    c.count("cert:in_domain", cert["in_domain"])
+    c.count("cert:outside_domain_under_guard", cert["outside_domain_under_guard"])
     c.extra["rule"] = ("one case = (options ∈ {default, canonical}, input text); the text is parsed by tlast.ParseTL2File, printed by "
                        "TL2File.String()/Print(canonical), parsed again (declarations compared by canonical dump) and printed again "
                        "(compared byte for byte); texts: all TL2 texts of the repository, files from the type-directed generator with random "
